@@ -1278,14 +1278,17 @@ class Fxp():
     
     def __neg__(self):
         y = Fxp(-self.val, signed=self.signed, n_word=self.n_word, n_frac=self.n_frac, raw=True)
+        if self.status['inaccuracy']: y.status['inaccuracy'] = True     # propagate inaccuracy from operand
         return y
 
     def __pos__(self):
         y = Fxp(+self.val, signed=self.signed, n_word=self.n_word, n_frac=self.n_frac, raw=True)
+        if self.status['inaccuracy']: y.status['inaccuracy'] = True     # propagate inaccuracy from operand
         return y
 
     def __abs__(self):
         y = Fxp(abs(self.val), signed=self.signed, n_word=self.n_word, n_frac=self.n_frac, raw=True)
+        if self.status['inaccuracy']: y.status['inaccuracy'] = True     # propagate inaccuracy from operand
         return y          
 
     def __add__(self, x):
